@@ -247,3 +247,20 @@ for _tag, _ps, _year, _clause in (("at_the_simulation_times", True, None, "resul
     CONTRACTS["results:Result.get_alloc#%s" % _tag] = dict(
         schema=schema, make_env=_env_alloc(_ps, _year), call_stubs={"self.model.progset.get_alloc": _ghost_get_alloc}, stubs={"self.t": "T"},
         ensures=[("C13.reported_spending_is_the_program_sets_allocation_under_the_instructions_of_the_run", _clause)], defined_props=["C13"])
+
+
+# ---- results._extend_tvals (C20: exports integrate over whole years): the years given plus the year after the last one, as a NEW array; years that are not one apart are refused
+def _env_tvals(vals):
+    return lambda it: {"tvals": __import__("numpy").array(vals), "GIVEN": __import__("numpy").array(vals)}
+
+
+CONTRACTS["results:_extend_tvals#consecutive_years"] = dict(
+    schema=schema, make_env=_env_tvals([2020, 2021, 2022]), call_stubs={"np.append": (lambda it, a, b: __import__("numpy").append(a, b))},
+    ensures=[("C20.the_years_given_plus_the_year_after_the_last", "list(result) == [2020, 2021, 2022, 2023]"), ("C20+C08.the_array_given_is_not_modified", "result is not tvals and list(tvals) == [2020, 2021, 2022]")], defined_props=["C20"])
+CONTRACTS["results:_extend_tvals#one_year"] = dict(
+    schema=schema, make_env=_env_tvals([2020]), call_stubs={"np.append": (lambda it, a, b: __import__("numpy").append(a, b))},
+    ensures=[("C20.the_years_given_plus_the_year_after_the_last", "list(result) == [2020, 2021]")], defined_props=["C20"])
+CONTRACTS["results:_extend_tvals#no_years"] = dict(
+    schema=schema, make_env=_env_tvals([]), ensures=[("C20.nothing_to_extend", "len(result) == 0")], defined_props=["C20"])
+CONTRACTS["results:_extend_tvals#years_not_one_apart"] = dict(
+    schema=schema, make_env=_env_tvals([2020, 2022]), raises={"AssertionError": "True"}, raises_props=["C20", "C18"], ensures=[], defined_props=["C20"])
